@@ -44,6 +44,14 @@ func init() {
 		blk, err := sm4.NewCipher(key)
 		ev["err"] = errStr(err)
 		ev["kind"] = fmt.Sprintf("%T", blk)
+		// is it the portable implementation?  (compared by dynamic type with what the portable constructor
+		// returns, so that renaming a type is not mistaken for a change of dispatch)
+		ev["portable"] = false
+		if err == nil && len(key) == 16 {
+			if gen, e2 := sm4.VerifNewCipherGeneric(key); e2 == nil {
+				ev["portable"] = fmt.Sprintf("%T", gen) == fmt.Sprintf("%T", blk)
+			}
+		}
 		ev["key_after"] = B(key)
 		if err == nil {
 			ev["blocksize"] = blk.BlockSize()
